@@ -429,7 +429,8 @@ def run_library(spec, ctx):
         with monitor.suspended():
             db = CircuitsDatabase(data_utils.DEFAULT_XAIG_DB_PATH)
             db.open()
-            keys = rng.sample(sorted(db._dict), 150)
+            from vt.props.c17 import read_keys, db_path
+            keys = rng.sample(sorted(read_keys(db_path('xaig'))), 150)
         for key in keys:
             with monitor.suspended():
                 c = db.get_by_label(key)
